@@ -20,21 +20,45 @@ type incBind[T num] struct {
 var bl gonum.Implementation
 
 var inc64 = map[string][]incBind[float64]{
-	"Axpy":    {{"blas.Daxpy", func(n int, a float64, x []float64, ix int, y []float64, iy int) float64 { bl.Daxpy(n, a, x, ix, y, iy); return 0 }}},
-	"DotInc":  {{"blas.Ddot", func(n int, a float64, x []float64, ix int, y []float64, iy int) float64 { return bl.Ddot(n, x, ix, y, iy) }}},
-	"ScalInc": {{"blas.Dscal", func(n int, a float64, x []float64, ix int, y []float64, iy int) float64 { bl.Dscal(n, a, x, ix); return 0 }}},
+	"Axpy": {{"blas.Daxpy", func(n int, a float64, x []float64, ix int, y []float64, iy int) float64 {
+		bl.Daxpy(n, a, x, ix, y, iy)
+		return 0
+	}}},
+	"DotInc": {{"blas.Ddot", func(n int, a float64, x []float64, ix int, y []float64, iy int) float64 {
+		return bl.Ddot(n, x, ix, y, iy)
+	}}},
+	"ScalInc": {{"blas.Dscal", func(n int, a float64, x []float64, ix int, y []float64, iy int) float64 {
+		bl.Dscal(n, a, x, ix)
+		return 0
+	}}},
 	"AsumInc": {{"blas.Dasum", func(n int, a float64, x []float64, ix int, y []float64, iy int) float64 { return bl.Dasum(n, x, ix) }}},
 	"Nrm2Inc": {{"blas.Dnrm2", func(n int, a float64, x []float64, ix int, y []float64, iy int) float64 { return bl.Dnrm2(n, x, ix) }}},
 }
 
 var inc32 = map[string][]incBind[float32]{
-	"Axpy": {{"blas.Saxpy", func(n int, a float32, x []float32, ix int, y []float32, iy int) float64 { bl.Saxpy(n, a, x, ix, y, iy); return 0 }}},
-	"DotInc": {{"blas.Sdot", func(n int, a float32, x []float32, ix int, y []float32, iy int) float64 { return float64(bl.Sdot(n, x, ix, y, iy)) }},
-		{"blas.Dsdot", func(n int, a float32, x []float32, ix int, y []float32, iy int) float64 { return bl.Dsdot(n, x, ix, y, iy) }},
-		{"blas.Sdsdot", func(n int, a float32, x []float32, ix int, y []float32, iy int) float64 { return float64(bl.Sdsdot(n, 0, x, ix, y, iy)) }}},
-	"ScalInc": {{"blas.Sscal", func(n int, a float32, x []float32, ix int, y []float32, iy int) float64 { bl.Sscal(n, a, x, ix); return 0 }}},
-	"AsumInc": {{"blas.Sasum", func(n int, a float32, x []float32, ix int, y []float32, iy int) float64 { return float64(bl.Sasum(n, x, ix)) }}},
-	"Nrm2Inc": {{"blas.Snrm2", func(n int, a float32, x []float32, ix int, y []float32, iy int) float64 { return float64(bl.Snrm2(n, x, ix)) }}},
+	"Axpy": {{"blas.Saxpy", func(n int, a float32, x []float32, ix int, y []float32, iy int) float64 {
+		bl.Saxpy(n, a, x, ix, y, iy)
+		return 0
+	}}},
+	"DotInc": {{"blas.Sdot", func(n int, a float32, x []float32, ix int, y []float32, iy int) float64 {
+		return float64(bl.Sdot(n, x, ix, y, iy))
+	}},
+		{"blas.Dsdot", func(n int, a float32, x []float32, ix int, y []float32, iy int) float64 {
+			return bl.Dsdot(n, x, ix, y, iy)
+		}},
+		{"blas.Sdsdot", func(n int, a float32, x []float32, ix int, y []float32, iy int) float64 {
+			return float64(bl.Sdsdot(n, 0, x, ix, y, iy))
+		}}},
+	"ScalInc": {{"blas.Sscal", func(n int, a float32, x []float32, ix int, y []float32, iy int) float64 {
+		bl.Sscal(n, a, x, ix)
+		return 0
+	}}},
+	"AsumInc": {{"blas.Sasum", func(n int, a float32, x []float32, ix int, y []float32, iy int) float64 {
+		return float64(bl.Sasum(n, x, ix))
+	}}},
+	"Nrm2Inc": {{"blas.Snrm2", func(n int, a float32, x []float32, ix int, y []float32, iy int) float64 {
+		return float64(bl.Snrm2(n, x, ix))
+	}}},
 }
 
 func runInc(r *runner, c *pcase) {
